@@ -39,7 +39,7 @@ func init() {
 			"R4: the wake-up send is a select with default (never blocks) on a channel created with capacity >= 1 (a token is not lost while the worker is between unlock and select). " +
 			"R5: Less(i,j) is elem[i].fireTime.Before(elem[j].fireTime). " +
 			"R7: the worker that consumed a wake-up token cannot retire before it has slept (with a recomputed timeout) or popped again - decided with path-sensitive constant propagation of the idle-round counter. " +
-			"R6: the worker re-reads the heap under the lock after every wake-up or timer expiry (no path from the select back to the select without Lock), and sleeps/blocks only with the lock released.",
+			"R6: the worker re-reads the heap under the lock after every wake-up or timer expiry (no path from the select back to the select without Lock), and sleeps/blocks only with the lock released. R8: a re-used timer is drained when Stop reports it fired. R9: a worker deregisters only when the heap is empty or another worker remains. Q1-Q7: the heap index / cancel rules of C12 (a future removed by mistake never fires).",
 		NotDecided: "lateness bounds, wind-down time, behaviour under stale wake-up tokens.",
 	})
 }
@@ -105,7 +105,12 @@ func resolveTimerRoles(c *Ctx) *timerRoles {
 	}
 	c.Role("timer.future", r.futureT.Obj().Name(), r.futureT.Obj().Pos())
 	r.fF = c.oneField("future.callback", r.futureT, func(f *types.Var) bool { _, ok := f.Type().Underlying().(*types.Signature); return ok })
-	r.fTime = c.oneField("future.fireTime", r.futureT, func(f *types.Var) bool { return ir.IsNamed(f.Type(), "time", "Time") })
+	if fs := fieldsWhere(r.futureT, func(f *types.Var) bool { return ir.IsNamed(f.Type(), "time", "Time") }); len(fs) == 1 {
+		r.fTime = fs[0]
+		c.Role("future.fireTime", r.fTime.Name(), r.fTime.Pos())
+	} else if len(fs) > 1 {
+		c.Fatalf("role future.fireTime is ambiguous")
+	}
 	r.fIdx = c.oneField("future.index", r.futureT, func(f *types.Var) bool { return types.Identical(f.Type(), types.Typ[types.Int]) })
 	r.ctrlMethods = c.P.MethodsOf(r.ctrl)
 	r.heapMethods = c.P.MethodsOf(r.futuresT)
@@ -374,11 +379,13 @@ func timerRules(c *Ctx, pfx string) {
 			okNow := isNow && ir.CalleeFullName(nowCall) == "time.Now"
 			// t = load of fireTime of element 0 of the heap
 			okT := false
-			if base, isT := loadOfField(t, r.fTime); isT {
-				if u, ok := ir.Resolve(base).(*ssa.UnOp); ok {
-					if ia, ok := u.X.(*ssa.IndexAddr); ok {
-						if k, isC := ir.ConstInt(ia.Index); isC && k == 0 {
-							okT = true
+			if r.fTime != nil {
+				if base, isT := loadOfField(t, r.fTime); isT {
+					if u, ok := ir.Resolve(base).(*ssa.UnOp); ok {
+						if ia, ok := u.X.(*ssa.IndexAddr); ok {
+							if k, isC := ir.ConstInt(ia.Index); isC && k == 0 {
+								okT = true
+							}
 						}
 					}
 				}
@@ -531,7 +538,9 @@ func timerRules(c *Ctx, pfx string) {
 	}
 
 	// R5 fire time
-	{
+	if r.fTime == nil {
+		c.Decide(pfx+"5", r.callFn, "fire time = time.Now().Add(d)", nil, false, "the future has no time.Time fire time: the due time is not kept as time.Now().Add(timeout) (integer nanosecond arithmetic overflows for very large delays - such a call starts at once - and loses the monotonic clock reading)")
+	} else {
 		fn := r.callFn
 		ok := false
 		var st ssa.Instruction
@@ -671,7 +680,11 @@ func (c *Ctx) timerLockset(r *timerRoles, rule string) {
 	c.R.Floor(rule, 12)
 }
 
-func runC13(c *Ctx) { timerLiveRules(c, "C13.R") }
+func runC13(c *Ctx) {
+	timerLiveRules(c, "C13.R")
+	// Q: a future that Cancel or a stale index removes by mistake is never started: the index/cancel rules of C12
+	timerRules(c, "C13.Q")
+}
 
 // timerLiveRules runs the liveness-shape rules of the timer package under the prefix pfx (C13.R, C05.U).
 func timerLiveRules(c *Ctx, pfx string) {
@@ -834,6 +847,9 @@ func timerLiveRules(c *Ctx, pfx string) {
 				continue
 			}
 			elemIdx := func(v ssa.Value) ssa.Value {
+				if r.fTime == nil {
+					return nil
+				}
 				base, isT := loadOfField(v, r.fTime)
 				if !isT {
 					return nil
@@ -936,6 +952,59 @@ func timerLiveRules(c *Ctx, pfx string) {
 		if n == 0 {
 			c.Decide(pfx+"7", fn, "woken worker re-arms before it may retire", nil, false, "cannot find the wake-up case of the worker's select")
 		}
+	}
+	// R8 a re-used timer is drained when Stop reports that it already fired
+	{
+		fn := r.worker
+		reuses := false
+		ir.Instrs(fn, func(in ssa.Instruction) {
+			if call, ok := in.(*ssa.Call); ok && ir.CalleeFullName(call) == "(*time.Timer).Reset" {
+				reuses = true
+			}
+		})
+		ir.Instrs(fn, func(in ssa.Instruction) {
+			call, ok := in.(*ssa.Call)
+			if !ok || ir.CalleeFullName(call) != "(*time.Timer).Stop" {
+				return
+			}
+			if !reuses {
+				c.Decide(pfx+"8", fn, "stopped timer is not re-used (or drained)", in, true, "")
+				return
+			}
+			// the false edge of Stop() receives from the timer's channel
+			drained := false
+			ir.Instrs(fn, func(x ssa.Instruction) {
+				u, isRecv := x.(*ssa.UnOp)
+				if !isRecv || u.Op != token.ARROW {
+					return
+				}
+				if ir.HasFact(x.Block(), func(f ir.Fact) bool { ff := f.StripNot(); return ff.Cond == ssa.Value(call) && !ff.True }) {
+					drained = true
+				}
+			})
+			c.Decide(pfx+"8", fn, "stopped timer is not re-used (or drained)", in, drained, "the worker re-uses its timer (Reset) but does not drain the channel when Stop reports that the timer already fired: the stale tick makes the next sleep return at once as a fake idle round and the worker that should re-arm retires")
+		})
+	}
+	// R9 a worker retires while futures are pending only if another worker remains
+	{
+		fn := r.worker
+		ir.Instrs(fn, func(in ssa.Instruction) {
+			if _, ok := isFieldDelta(in, r.workers, -1); !ok {
+				return
+			}
+			empty := hasFactCmp(in.Block(), func(cm ir.Cmp) bool {
+				call, isCall := ir.Resolve(cm.X).(*ssa.Call)
+				k, isC := ir.ConstInt(cm.Y)
+				return isCall && ir.StaticCallee(call) == r.lenM && isC && k == 0 && cm.Op == token.EQL
+			})
+			others := hasFactCmp(in.Block(), func(cm ir.Cmp) bool {
+				_, isW := loadOfField(cm.X, r.workers)
+				k, isC := ir.ConstInt(cm.Y)
+				return isW && isC && ((cm.Op == token.GTR && k >= 1) || (cm.Op == token.GEQ && k >= 2))
+			})
+			c.Decide(pfx+"9", fn, "worker retires only with an empty heap or another worker left", in, empty || others,
+				"a worker can deregister while futures are pending and it may be the last one: nobody is left to start them until some later Call spawns a worker")
+		})
 	}
 	c.Saw(r.add, r.worker, r.notify, r.less)
 }
